@@ -52,7 +52,19 @@ def _cleanup():
         shutil.rmtree(_scratch_root, ignore_errors=True)
 
 
+_scratch_names = set()
+_scratch_lock = __import__("threading").Lock()
+
+
 def scratch(name):
+    """a scratch directory; the same name is never handed out twice within one run (parallel batches must not share files)"""
+    base = name
+    n = 1
+    with _scratch_lock:
+        while name in _scratch_names:
+            n += 1
+            name = "%s~%d" % (base, n)
+        _scratch_names.add(name)
     p = os.path.join(scratch_root(), name)
     os.makedirs(p, exist_ok=True)
     return p
